@@ -114,7 +114,8 @@ impl LangInterpreter for Portuguese {
             "oitocent" | "octingentésim" if !only_multipliers => b.put(b"800"),
             "novecent" | "noningentésim" | "nongentésim" if !only_multipliers => b.put(b"900"),
             "mil" | "milésim"
-                if b.is_range_free(3, 5) && (only_multipliers || b.peek(3) != b"100") =>
+                if b.is_range_free(3, 5)
+                    && (only_multipliers || b.peek(3) != b"100" || b.marker.is_ordinal()) =>
             {
                 let peek = b.peek(2);
                 if peek == b"1" {
